@@ -252,6 +252,43 @@ def row_scheme_agrees(ctx, F):
                     sample={"merger": name, "schemes": {k: sorted(v) for k, v in got.items()}})
 
 
+def fold_lore_phases(ctx, F):
+    """Fold lore application is a 2x2 table (side x phase): apply_fold_lore_before moves BOTH sliders to their
+    before-subtrace, apply_fold_lore_after moves BOTH to their after-subtrace, each side from its own lore with its own
+    context type; and apply_fold_lore(ctx, phase) picks the slider of `ctx` and the (begin, len) pair of `phase`."""
+    for fname, phase in (("lore_applier::apply_fold_lore_before", "Before"), ("lore_applier::apply_fold_lore_after", "After")):
+        f = F.fn(fname)
+        p = Prov(f)
+        rows = []
+        for c in f.calls_to("lore_applier::apply_fold_lore"):
+            lore, ctxt, ph = p.operand(c.args[1]), p.operand(c.args[2]), p.operand(c.args[3])
+            side = "prev" if lib.mentions_param(lore, "prev_fold_lore") else "current" if lib.mentions_param(lore, "current_fold_lore") else "?"
+            rows.append((side, ctxt[2] if ctxt[0] == "agg" else show(ctxt), ph[2] if ph[0] == "agg" else show(ph)))
+            ctx.require(lib.err_propagates(f, c), "R-MUST", "fold-lore:%s:%s:propagated" % (phase, side), "slider error propagated", "%s ignores a slider error" % fname)
+        want = [("current", "Current", phase), ("prev", "Previous", phase)]
+        ctx.require(sorted(rows) == want, "R-TABLE", "fold-lore:phase:" + phase, "%s: (prev lore, Previous, %s) and (current lore, Current, %s)" % (fname.split("::")[-1], phase, phase),
+                    "%s applies %s, expected both sides with phase %s: one slider would be positioned on the wrong half of the iteration's recorded states" % (fname, sorted(rows), phase),
+                    sample={"fn": fname, "rows": sorted(rows)})
+    af = F.fn("lore_applier::apply_fold_lore")
+    ap_ = Prov(af)
+    rows = {}
+    for st in lib.enumerate_paths(af, ap_, max_paths=20000):
+        cty = [v for k, v in st.variants.items() if v in ("Previous", "Current")]
+        ph = [v for k, v in st.variants.items() if v in ("Before", "After")]
+        pp = PathProv(af, st.blocks)
+        for c in st.calls:
+            if c.path.endswith("TraceSlider::set_position_and_len"):
+                recv, a1, a2 = pp.operand(c.args[0]), pp.operand(c.args[1]), pp.operand(c.args[2])
+                sl = "prev" if lib.mentions_call(recv, "prev_slider_mut") else "current" if lib.mentions_call(recv, "current_slider_mut") else "?"
+                sub = {x[2] for x in walk(a1) if x[0] == "field" and x[2].endswith("_subtrace")} | {x[2] for x in walk(a2) if x[0] == "field" and x[2].endswith("_subtrace")}
+                flds = ([x[2] for x in walk(a1) if x[0] == "field" and x[2] in ("begin_pos", "subtrace_len")], [x[2] for x in walk(a2) if x[0] == "field" and x[2] in ("begin_pos", "subtrace_len")])
+                rows[(cty[0] if cty else None, ph[0] if ph else None)] = (sl, tuple(sorted(sub)), flds[0][:1], flds[1][:1])
+    want = {("Previous", "Before"): ("prev", ("before_subtrace",), ["begin_pos"], ["subtrace_len"]), ("Previous", "After"): ("prev", ("after_subtrace",), ["begin_pos"], ["subtrace_len"]),
+            ("Current", "Before"): ("current", ("before_subtrace",), ["begin_pos"], ["subtrace_len"]), ("Current", "After"): ("current", ("after_subtrace",), ["begin_pos"], ["subtrace_len"])}
+    ctx.require(rows == want, "R-TABLE", "fold-lore:apply", "apply_fold_lore: slider of the context, (begin_pos, subtrace_len) of the phase's subtrace",
+                "apply_fold_lore table is %s" % {str(k): v for k, v in rows.items()}, sample={"table": {str(k): list(map(str, v)) for k, v in rows.items()}})
+
+
 def call_scheme_agrees(ctx, F):
     """The PreparationScheme reported with a merged call names the side whose operand is returned."""
     f, cells = call_cells(ctx, F)
